@@ -1,8 +1,11 @@
 #!/bin/bash
 # re-run every kept seeded change against its property's quick check (scratch worktree of /repo HEAD); prints a matrix
+# usage: tools/seeded_matrix.sh [seed] [parallel jobs]
 cd "$(dirname "$0")/.."
-for d in seeded/*/*/; do
-  p=$(basename $(dirname $d)); n=$(basename $d)
-  r=$(timeout 2400 python3 selftest/try_patch.py $d/patch.diff $p --tests --demo $d/demo.py --seeds ${1:-1} 2>&1 | tr '\n' ' ' | cut -c1-420)
+one() {
+  d=$1; p=$(basename $(dirname $d)); n=$(basename $d)
+  r=$(timeout 2400 python3 selftest/try_patch.py $d/patch.diff $p --tests --demo $d/demo.py --seeds $2 2>&1 | tr '\n' ' ' | cut -c1-420)
   echo "$p $n :: $r"
-done
+}
+export -f one
+ls -d seeded/*/*/ | xargs -P ${2:-1} -I{} bash -c "one {} ${1:-1}"
